@@ -335,7 +335,9 @@ def columns_layout(context, box, bottom_space, skip_stack, containing_block,
         skip_stack = None
         page_is_empty = False
 
-        if stop_rendering:
+        if stop_rendering and (column_skip_stack or break_page):
+            # Remaining content goes on the next page, otherwise go on with
+            # the blocks and columns following these columns
             break
 
     # Report footnotes above the defined footnotes height
